@@ -193,6 +193,12 @@ ALPHA_PRIV = [["def", "v", PLAIN, 0], ["def", "v", [0, 0, 1], 0], ["in-ns", X], 
               ["refer", X, ["v"]], ["require", X, "fb"], ["alter", X, "v", 0]]
 
 
+# refers of one name from two namespaces, wholesale and :only, in every order (the last refer wins)
+REFER_PREFIX = [["in-ns", X], ["def", "v", PLAIN, 0], ["def", "a-b", PLAIN, 0], ["in-ns", Y], ["def", "v", PLAIN, 0],
+                ["def", "a-b", PLAIN, 0], ["in-ns", U]]
+ALPHA_REFER = [["refer", X, ["v"]], ["refer", X, []], ["refer", Y, ["v"]], ["refer", Y, []], ["refer", Y, ["a-b"]]]
+
+
 # file-backed namespaces (foo-bar and foo_bar would be the same file foo_bar.lpy)
 FILES = {X: [["v", PLAIN, 1], ["a-b", PLAIN, 2]], Y: [["v", PLAIN, 3], ["a_b", PLAIN, 4]]}
 ALPHA_DISK = [["require", X, "fb"], ["require", Y, "fd"], ["refer", X, ["v"]], ["refer", Y, ["a_b"]],
@@ -333,6 +339,8 @@ def cases(tier, rng):
         yield with_reads([X, U, Y, Z], ops, modes())
     for ops in sequences(ALPHA_PRIV, 3 if quick else 4):
         yield with_reads([U, X], ops, modes())
+    for ops in sequences(ALPHA_REFER, 2 if quick else 4):
+        yield with_reads([U, X, Y], number(REFER_PREFIX + ops), modes(), every=True)
     # thread bindings: every history of length <= 3 (thorough: 5) after (def ^:dynamic *v* ..), a sample of
     # the next length, each once through the runtime functions and once through real `binding` forms
     kb = 0
